@@ -42,3 +42,28 @@ package prune
 //@   loop 4 invariant [C12] forall2(k, q, 0 <= k && k < iter && 0 <= q && q < len(allBlockIdxKeys) && blkIdxOf(sid(sum), k) == sid(allBlockIdxKeys[q]) ==> keepBlockIndex[q])
 //@   loop 4 local
 //@   loop 4 decreases len(ts.BlockIndices) - iter
+
+// The commit sweep. Every ref of the store seeds the walk; the walk marks every commit it pops; a commit is put on the
+// removal list only if it was never seen by the walk. With lemma L1 (a parent-closed set that contains c contains all
+// ancestors of c; Lean-checked, instantiated by closureLemma) a removed commit is an ancestor of no commit the walk has seen,
+// in particular of no ref's commit.
+//@ func findCommitsToRemove
+//@   props C12
+//@   loop-candidates
+//@   requires db != nil && rs != nil
+//@   modifies qseen, qqueued
+//@   search 1: j => !sumlt(sid(commitKeys[j]), sid(sum))
+//@   final [C12] err == nil ==> forall(n, get2(refVal, rs, n) != 0 && member2(comSet, db, get2(refVal, rs, n)) ==> member2(qseen, q, get2(refVal, rs, n)))
+//@   final [C12] err == nil ==> forall2(k, c, 0 <= k && k < len(commitsToRemove) && member2(qseen, q, c) && closureLemma(sel(qseen, q), c) ==> !anc(sid(commitsToRemove[k]), c))
+//@   loop 1 invariant q != nil && qdb(q) == db && refMap != nil && forall(n, member(refMap, n) ==> len(refMap[n]) == 16)
+//@   loop 1 invariant [C12] forall(n, member(visited, n) && member2(comSet, db, sid(refMap[n])) ==> member2(qseen, q, sid(refMap[n])))
+//@   loop 1 invariant [C12] forall(x, member2(qqueued, q, x) <==> member2(qseen, q, x))
+//@   loop 2 invariant q != nil && qdb(q) == db && len(commitFound) == len(commitKeys) && sortedKeys(commitKeys) && listsAll(commitKeys, comSet, db) && listedAt(commitKeys, comSet, db)
+//@   loop 2 invariant [C12] forall(x, member2(qqueued, q, x) ==> member2(qseen, q, x))
+//@   loop 2 invariant [C12] forall(n, get2(refVal, rs, n) != 0 && member2(comSet, db, get2(refVal, rs, n)) ==> member2(qseen, q, get2(refVal, rs, n)))
+//@   loop 2 invariant [C12] forall2(x, i, member2(qseen, q, x) && !member2(qqueued, q, x) && 0 <= i && i < nparents(x) ==> member2(qseen, q, parentOf(x, i)))
+//@   loop 2 invariant [C12] forall(j, 0, len(commitKeys), member2(qseen, q, sid(commitKeys[j])) && !member2(qqueued, q, sid(commitKeys[j])) ==> commitFound[j])
+//@   loop 3 invariant iter <= len(commitFound) && len(commitFound) == len(commitKeys) && (cap(commitsToRemove) == 0 || (fresh(commitsToRemove) && reg(commitsToRemove) != reg(commitKeys))) && (cap(survivingCommits) == 0 || (fresh(survivingCommits) && reg(survivingCommits) != reg(commitKeys))) && (cap(commitsToRemove) == 0 || cap(survivingCommits) == 0 || reg(commitsToRemove) != reg(survivingCommits))
+//@   loop 3 invariant [C12] forall(j, 0, len(commitKeys), member2(qseen, q, sid(commitKeys[j])) ==> commitFound[j])
+//@   loop 3 invariant [C12] forall(k, 0, len(commitsToRemove), !member2(qseen, q, sid(commitsToRemove[k])))
+//@   loop 3 decreases len(commitFound) - iter
